@@ -17,7 +17,7 @@ RULE = ("histories of fill / fill_n (mixed, with empty and NaN-containing batche
         "values k*w, decimal literals round(k*w, d), one ulp beside grid points, far values (<= 5000 bins), negatives; every step "
         "is checked by the step monitor, the final state against the exact model over the final bins; plus data-derived "
         "fixed_width / pretty / integer binnings (coverage of their own data); non-trivial = non-dyadic width, >= 1 value within "
-        "2 ulp of a grid point, growth to the left and to the right; distinct by hash of (width, options, history)")
+        "2 ulp of a grid point, growth to the left and to the right; distinct by hash of (width, options, history) Pre-filled histories also start from `range=` narrower than the data (adaptive bins cover all the data).")
 ASSUMPTIONS = [
     "grid / width checks in ulps of the edge magnitude (4 ulp), contiguity and 'old edges stay edges' bit-exact",
     "far values are bounded to 5000 bins so that a run cannot allocate its way out of memory",
